@@ -582,16 +582,16 @@ def generate(tier, seed, path):
     if os.path.isdir(cdir):
         for f in sorted(os.listdir(cdir)):
             cases += vc.read_cases(os.path.join(cdir, f))
-    cases += gen_algebra(rng, 6 if thorough else 1, SHAPES + ZERO_SHAPES)
-    cases += gen_known_int_float(rng, 3 if thorough else 1)
-    cases += gen_mismatch(rng, 4 if thorough else 1)
-    cases += gen_equality(rng, 4 if thorough else 1, "pad")
-    for i in range(1500 if thorough else 150):
+    cases += gen_algebra(rng, 20 if thorough else 1, SHAPES + ZERO_SHAPES)
+    cases += gen_known_int_float(rng, 8 if thorough else 1)
+    cases += gen_mismatch(rng, 12 if thorough else 1)
+    cases += gen_equality(rng, 10 if thorough else 1, "pad")
+    for i in range(8000 if thorough else 150):
         cases.append(gen_own_one(rng, rng.choice("id"), rng.choice([6, 10, 16, 25, 40])))
     if thorough:
         # the same equality sweep on rasters that own their memory: reads past a
         # buffer are then for the sanitizer to see (the harness aborts: kept last)
-        cases += gen_equality(rng, 1, "own")
+        cases += gen_equality(rng, 3, "own")
     with open(path, "w") as f:
         f.write("\n".join(cases) + "\n")
     return cases
@@ -668,7 +668,7 @@ def monitor_algebra(line, lines, ctx, stats):
     # memory: sentinels intact, nothing leaked or freed wrongly
     pad = field(lines, "pad")
     if pad is None:
-        viol("C19.harness.no_output.%s" % kind, "no output for the case (harness stopped)")
+        stats["cases_without_complete_output"] = stats.get("cases_without_complete_output", 0) + 1
         return
     if not pad.startswith("ok"):
         viol("C19.memory.out_of_bounds_write.%s" % kind, "cells outside the raster were modified")
@@ -858,8 +858,7 @@ def monitor_own(line, lines, ctx, stats):
         was_view = name in ("write",) and spec.slots[op[1]]["kind"] == "view"
         spec.apply(op)
         if idx >= len(steps):
-            ctx.violation("C19.harness.no_output.OWN", "the harness stopped before step %d" % idx, own_line(t, nslots, ops[:idx + 1]),
-                          "impl: " + " | ".join(lines)[-600:])
+            stats["cases_without_complete_output"] = stats.get("cases_without_complete_output", 0) + 1
             return
         l = steps[idx]
         parts = l.split(" | ")
@@ -944,7 +943,7 @@ def monitor_own(line, lines, ctx, stats):
         elif "free" in end:
             ctx.violation("C19.ownership.never_frees_caller_memory.cleanup", "delete[] on memory the class did not allocate: " + end, line, end)
         elif not end:
-            ctx.violation("C19.harness.no_output.OWN", "no end line", line, " | ".join(lines)[-400:])
+            stats["cases_without_complete_output"] = stats.get("cases_without_complete_output", 0) + 1
     if end.startswith("live=") and not end.startswith("live=0"):
         stats["leaked_buffers_observed"] = stats.get("leaked_buffers_observed", 0) + 1
 
@@ -975,13 +974,46 @@ def run_engine(ctx, cases_path):
         return None, None
     impl = os.path.join(ctx.work, "impl.out")
     model = os.path.join(ctx.work, "model.out")
-    rc, e = vc.run_to_file([h, cases_path], impl)
-    if rc != 0:
-        ctx.broke("implementation harness run (exit %d%s)" % (rc, ", sanitizer build" if thorough else ""), e)
+    cases = vc.read_cases(cases_path)
+    crashed = run_impl_with_restarts(ctx, h, cases, impl)
+    ctx.crashed_cases = crashed
+    if crashed:
+        ctx.broke("implementation harness stopped abnormally on %d case(s)%s" % (len(crashed), ", sanitizer build" if thorough else ""),
+                  "\n".join("case #%d (exit %s): %s\n%s" % (k, rc, cases[k][:300], err[-1500:]) for k, rc, err in crashed[:3]))
     rc, e = vc.run_to_file([m, cases_path], model)
     if rc != 0:
         ctx.broke("model driver run (exit %d)" % rc, e)
     return impl, model
+
+
+def run_impl_with_restarts(ctx, exe, cases, impl_path, max_restarts=25):
+    """Runs the harness; when it dies (crash, sanitizer abort) the case it died
+    on is recorded and the harness is restarted on the cases after it.
+    Returns [(case number, exit code, stderr tail)]."""
+    crashed = []
+    start = 0
+    open(impl_path, "w").close()
+    part = os.path.join(ctx.work, "impl.part")
+    sub = os.path.join(ctx.work, "cases.part")
+    while start < len(cases):
+        with open(sub, "w") as f:
+            f.write("\n".join(cases[start:]) + "\n")
+        rc, err = vc.run_to_file([exe, sub, str(start)], part)
+        txt = open(part, errors="replace").read()
+        with open(impl_path, "a") as f:
+            f.write(txt if txt.endswith("\n") or not txt else txt + "\n")
+        if rc == 0:
+            break
+        done = start - 1
+        for l in txt.split("\n"):
+            p = l.split(" ", 2)
+            if len(p) >= 2 and p[0].isdigit() and p[1] in ("pad", "end") and (p[1] == "end" or "memerr=" in l):
+                done = max(done, int(p[0]))
+        crashed.append((done + 1, rc, err))
+        start = done + 2
+        if len(crashed) >= max_restarts:
+            break
+    return crashed
 
 
 def nontrivial(line):
@@ -1011,6 +1043,13 @@ def check(ctx, replay=None):
         return
     out = group_output(impl)
     stats = monitor(cases, out, ctx)
+    for k, rc, err in getattr(ctx, "crashed_cases", []):
+        if k < len(cases):
+            kind = cases[k].split()[0]
+            san = [l for l in err.split("\n") if "ERROR: AddressSanitizer" in l or "runtime error" in l]
+            ctx.violation("C19.no_crash.%s" % kind,
+                          "the implementation stopped abnormally (exit %s) on this case%s" % (rc, ": " + san[0][:200] if san else ""),
+                          cases[k], err[-1200:])
     ncmp, diffs = vc.diff_outputs(impl, model)
     if diffs:
         k, a, b = diffs[0]
